@@ -520,7 +520,7 @@ func C18(rep *ev.Reporter, tier string) {
 		rep.Exhaustive = false
 		rep.Coverage["caps_hit"] = "time budget"
 	}
-	rep.Coverage["rule"] = "every JSON operator tree of depth 1 over all 15 operators and operand forms {plain string, number, bool, obj, const of each kind}; depth 2 with a nested operand on either side (quick: every 3rd depth-1 node as nested operand; thorough: all, both sides nested, depth-3 logic trees); 3-operand forms; nesting of the same operator on either side where it is not associative (mixed int/string concatenation, float rounding); unary not stacked 1..4 deep and as operand; set/call trees in `then`; calls with nested arguments; hostile string constants; boundary numeric constants; names/descriptions/saliences; malformed rules. Oracle: the JSON tree is read directly (operands grouped exactly as nested, n-ary left-associated) and evaluated by the reference evaluator; the translated text must be accepted by the real builder, keep name/description/salience, give the same candidate flag and the same facts after firing. Ill-typed trees (per the reference) are not judged. Non-trivial: a well-typed tree whose translated rule was built and compared."
+	rep.Coverage["rule"] = "every JSON operator tree of depth 1 over all 15 operators and operand forms {plain string, number, bool, obj, const of each kind}; depth 2 with a nested operand on either side (quick: every 3rd depth-1 node as nested operand; thorough: all, both sides nested, depth-3 logic trees); 3-operand forms; nesting of the same operator on either side where it is not associative (mixed int/string concatenation, float rounding); unary not stacked 1..4 deep and as operand; set/call trees in `then`; calls with nested arguments; hostile string constants; boundary numeric constants; names/descriptions/saliences; malformed rules; one resource value loaded repeatedly while the document behind it changes (in place or replaced). Oracle: the JSON tree is read directly (operands grouped exactly as nested, n-ary left-associated) and evaluated by the reference evaluator; the translated text must be accepted by the real builder, keep name/description/salience, give the same candidate flag and the same facts after firing. Ill-typed trees (per the reference) are not judged. Non-trivial: a well-typed tree whose translated rule was built and compared."
 }
 
 func c18FloatSink(w *ref.World) (float64, bool) { return w.Objs["K"].F, true }
@@ -731,8 +731,86 @@ func c18Extras(rep *ev.Reporter, mu *sync.Mutex) int64 {
 		}
 	}
 	n += c18Rulesets(rep, report)
+	n += c18ResourceReuse(rep, report)
 	return n
 }
+
+// c18ResourceReuse: one JSON resource VALUE is loaded several times while the document behind it changes
+// (a re-read file, a reused buffer edited in place, same length or not): every Load translates the document
+// as it is at that moment. Differential oracle: the translation by a fresh resource over a private copy.
+func c18ResourceReuse(rep *ev.Reporter, report func(sig, what, id, js, text string)) int64 {
+	base := `{"name":"aa","desc":"d1","salience":10,"when":{"lt":["F.I",50]},"then":[{"set":["K.I",1]}]}`
+	edits := [][2]string{{`"lt"`, `"gt"`}, {`50`, `75`}, {`"salience":10`, `"salience":20`}, {`"name":"aa"`, `"name":"bb"`}, {`"d1"`, `"d2"`}, {`["K.I",1]`, `["K.I",2]`},
+		{`50`, `5000`}, {`"lt"`, `"gte"`}}
+	var n int64
+	for ei, e := range edits {
+		for _, inPlace := range []bool{true, false} {
+			for _, loadsBefore := range []int{1, 2} {
+				id := fmt.Sprintf("c18/resource-reuse/%d/inplace=%v/loads%d", ei, inPlace, loadsBefore)
+				if rep.ReplayFilter != "" && rep.ReplayFilter != id {
+					continue
+				}
+				edited := strings.Replace(base, e[0], e[1], 1)
+				if inPlace && len(edited) != len(base) {
+					continue
+				}
+				fresh := func(doc string) string {
+					r, err := pkg.NewJSONResourceFromResource(pkg.NewBytesResource([]byte(doc)))
+					if err != nil {
+						return "ERR " + err.Error()
+					}
+					out, err := r.Load()
+					if err != nil {
+						return "ERR " + err.Error()
+					}
+					return string(out)
+				}
+				buf := []byte(base)
+				under := &c18MutableResource{data: buf}
+				res, err := pkg.NewJSONResourceFromResource(under)
+				if err != nil {
+					report("harness:C18-resource-reuse", err.Error(), id, base, "")
+					continue
+				}
+				first := ""
+				for k := 0; k < loadsBefore; k++ {
+					out, lerr := res.Load()
+					if lerr != nil {
+						first = "ERR " + lerr.Error()
+					} else {
+						first = string(out)
+					}
+				}
+				n++
+				if want := fresh(base); first != want {
+					report("C18:reloaded-resource-translates-differently", fmt.Sprintf("load #%d of one resource value gives\n%s\n  a fresh resource gives\n%s", loadsBefore, first, want), id, base, first)
+					continue
+				}
+				if inPlace {
+					copy(buf, edited) // same backing array, same length
+				} else {
+					under.data = []byte(edited)
+				}
+				out, lerr := res.Load()
+				got := string(out)
+				if lerr != nil {
+					got = "ERR " + lerr.Error()
+				}
+				n++
+				if want := fresh(edited); got != want {
+					report("C18:reloaded-resource-translates-a-superseded-document", fmt.Sprintf("the document behind the resource changed (%s -> %s, in place: %v) after %d load(s); the next Load gives\n%s\n  a fresh resource over the current document gives\n%s", e[0], e[1], inPlace, loadsBefore, got, want), id, edited, got)
+				}
+			}
+		}
+	}
+	return n
+}
+
+// c18MutableResource is a pkg.Resource whose document can change between loads.
+type c18MutableResource struct{ data []byte }
+
+func (r *c18MutableResource) Load() ([]byte, error) { return r.data, nil }
+func (r *c18MutableResource) String() string        { return "mutable resource" }
 
 // c18Rulesets: arrays of rules. Every rule of a ruleset must translate exactly as it does on its
 // own, keep its own metadata (omitted desc/salience are the defaults), and a malformed rule at
